@@ -36,6 +36,8 @@ CHECKS = {
          "Held on generated groups of 2-8 scripts on distinct documents in three schedules (sequential, call-interleaved, goroutines with yields at hook points); the race binary observed no report on the interleavings that occurred."),
  "C17": ("exploration", "purity monitor (deep snapshots of template, base document and data around every render), repeatability and independence differential (re-render every loaded template after every cache mutation), race detector on one shared engine, linearizability check of the recorded cache history against a sequential map model (porcupine)", "3.3, 3.5, 4/C17",
          "Held on generated load/load-from-document/render/remove/clear sequences with inheritance chains and siblings, and on concurrent histories of 2-8 goroutines on one engine; linearizability decided per history with a timeout (timeout = inconclusive)."),
+ "C18": ("exploration", "reference substitution on the independently read base document compared with the independently read rendered document: per-paragraph text, per-character run formatting of literal characters, w:pPr, break runs, body sequence, w:sectPr, loop table rows, header/footer text, pictures, untouched parts", "4/C18",
+         "Held on generated base documents with placeholders cut at forced positions across 1-4 formatted runs in body, cells, nested tables, headers and footers (incl. packages with split header placeholders that are opened first), loop tables, image placeholders and hostile values."),
 }
 PENDING = {}
 ALL = ["C%02d" % i for i in range(1, 21)]
